@@ -930,6 +930,10 @@ def differential(rep, programs, impl, model, family, cls):
                 {"family": family, "class": cls, "program": p, "impl": a, "model": b})
 
 
+class _Found(Exception):
+    pass
+
+
 def nary_stream(rep, rng, count):
     """Oracle-only stream on the real objects: the n-ary entry points `f.then(g, h, ...)`,
     `f.tensor(g, h, ...)`, `Tensor.id(dom).then(*fs)`, `Tensor.id(Dim(1)).tensor(*fs)` and their
@@ -951,6 +955,22 @@ def nary_stream(rep, rng, count):
         rep.count("stream:n-ary")
         what = None
         try:
+            # what a constructor returns is the caller's: scribbling over one identity / swap / cup
+            # does not change the next one
+            for name, mk in (("Tensor.id", lambda: Tensor.id(Dim(*a))), ("Tensor.swap", lambda: Tensor.swap(Dim(*a), Dim(*b))),
+                             ("Tensor.cups", lambda: Tensor.cups(Dim(*a), Dim(*a[::-1])))):
+                first = mk()
+                ref = numpy.array(first.array).copy()
+                try:
+                    first.array[...] = 0
+                except (ValueError, TypeError):
+                    pass
+                again = numpy.array(mk().array)
+                if again.shape != ref.shape or not numpy.array_equal(again, ref):
+                    what = "%s returns a different tensor after an earlier result was overwritten in place" % name
+                    break
+            if what is not None:
+                raise _Found(what)
             want = (f >> g) >> h
             if f.then(g, h) != want or f.then(g).then(h) != want or Tensor.id(Dim(*a)).then(f, g, h) != want:
                 what = "f.then(g, h) is not (f >> g) >> h"
@@ -969,6 +989,8 @@ def nary_stream(rep, rng, count):
                     what = "%s is accepted although the types do not match (returns %r -> %r)" % (name, r.dom, r.cod)
                 except AxiomError:
                     pass
+        except _Found:
+            pass
         except Exception as exc:   # noqa
             what = "n-ary then / tensor raised %s: %s" % (type(exc).__name__, exc)
         if what:
